@@ -53,7 +53,7 @@ typedef struct ns_cfg {
 static ns_cfg NC;
 
 /* ---- monitors' shared records ---- */
-#define NS_MAXPK 256
+#define NS_MAXPK 1024
 typedef struct ns_pk {
 	int proc;                 /* tun it was read from / written to */
 	int len; uint64_t h0, h1; /* hash of bytes from offset 4 */
@@ -324,7 +324,7 @@ static void ns_on_tun_read(int proc, const unsigned char *data, int len, int tag
 	p->proc = proc; p->len = len; p->tag = tag; p->at = W.now; p->matched = -1;
 	ns_pkhash(data, len, &p->h0, &p->h1);
 	p->dstproc = -1;
-	p->must = (ns_must_by_tag && tag > 0 && tag < 64) ? ns_must_by_tag[tag] : 0;
+	p->must = (ns_must_by_tag && tag > 0 && tag < NS_MAXPK) ? ns_must_by_tag[tag] : 0;
 	if (len >= 24) { uint32_t dst; memcpy(&dst, data + 20, 4); p->dstproc = ns_proc_of_tunip(dst); }
 	if (proc == 0) {
 		/* server: accepted iff routable to a live session with room (outpacket free or queue not full) */
